@@ -151,7 +151,7 @@ impl ArrayImpl {
     arith!(sub, -);
     arith!(mul, *);
     arith!(unchecked_div, /);
-    arith!(rem, %);
+    arith!(unchecked_rem, %);
     cmp!(eq, ==);
     cmp!(ne, !=);
     cmp!(gt,  >);
@@ -168,6 +168,18 @@ impl ArrayImpl {
         ))?;
 
         self.unchecked_div(&other)
+    }
+
+    /// Like `div`, the remainder by zero is NULL (the integer `%` by zero would panic).
+    pub fn rem(&self, other: &Self) -> Result {
+        let valid_rhs = other.get_valid_bitmap();
+        let other = safen_dividend(other, valid_rhs).ok_or(ConvertError::NoBinaryOp(
+            "rem".into(),
+            self.type_string(),
+            other.type_string(),
+        ))?;
+
+        self.unchecked_rem(&other)
     }
 
     pub fn and(&self, other: &Self) -> Result {
